@@ -81,7 +81,8 @@ def flatten_paths(text, log):
     """N3c: `crate::a::b::Name` / `super::a::Name` → `Name` (everything lives in one module)."""
     m = mask(text)
     out = text
-    for mt in reversed(list(re.finditer(r"\b(?:crate|super)::(?:[a-z_][a-z0-9_]*::)*", m))):
+    # (`$crate::…` inside macro_rules bodies is left alone: the unit provides stand-in modules for those paths)
+    for mt in reversed(list(re.finditer(r"(?<!\$)\b(?:crate|super)::(?:[a-z_][a-z0-9_]*::)*", m))):
         log.count("N3c flatten path")
         out = out[:mt.start()] + out[mt.end():]
     return out
